@@ -609,4 +609,8 @@ example : Gen.rrsParseRule {} (lit "RRULE:FREQ=WEEKLY;COUNT=3;BYDAY=+1MO,TU") =
     .ok { freq := some 2, count := some 3, byweekday := some [(0, some 1), (1, none)] } := by decide
 example : Gen.rrsParseRule {} (lit "FREQ=DAILY;FOO=1") = .error .ValueError := by decide
 
+/-- `_rrulestr.__call__` as translated from source is a pure delegation: `rrulestr(s, **kwargs)` IS `_parse_rfc(s, **kwargs)` (any edit of
+    that one-line method — a cache, a changed default, a dropped keyword — makes the translation fail or this obligation break) -/
+theorem gen_call_eq_model (s : List Char) (o : Opts) (kw : Bool) : Gen.rrsCall s o kw = parseRfc s o kw := rfl
+
 end C13
